@@ -70,6 +70,22 @@ def sources(tier, seed, ctx):
         n, m = rng.choice([(2, 2), (3, 1), (3, 1), (3, 2)])
         mtt = [[rng.choice([0, 1, 0, 1, 2]) for _ in range(2 ** n)] for _ in range(m)]
         srcs.append(_config(rng, n, m, mtt, 3))
+    # several outputs that are written differently but are ONE function once their don't-cares are filled in
+    # (so fewer gates than outputs suffice)
+    for j in range(40 if tier == 'quick' else 400):
+        n = rng.choice([2, 2, 3])
+        f = [rng.randint(0, 1) for _ in range(2 ** n)]
+        m = rng.choice([2, 2, 3])
+        mtt = []
+        for _ in range(m):
+            row = list(f)
+            for t in rng.sample(range(2 ** n), rng.randint(1, 2 ** n - 1)):
+                row[t] = 2
+            mtt.append(row)
+        cfg = _config(rng, n, m, mtt, 3)
+        cfg['r'] = rng.choice([1, 1, 2]) if n == 2 else rng.choice([1, 2, 2, 3])
+        cfg['fix'], cfg['forbid'], cfg['norm'] = [], [], False
+        srcs.append(cfg)
     # histories: a finder for a neighbouring model (some rows don't-care on every output) runs first in the same process
     for j, s in enumerate(srcs):
         if j % 3 == 1:
